@@ -1,4 +1,6 @@
 import NanoVerif.Proofs.AugLag
+import NanoVerif.Proofs.PenaltySolver
+import NanoVerif.Proofs.PenaltyState
 import Mathlib.Algebra.Order.Ring.Abs
 import Mathlib.Algebra.Order.Field.Rat
 import Mathlib.Tactic.NormNum
@@ -447,6 +449,448 @@ theorem al_converged_feasible_solver (cs : List (C α)) (p : Params α) (hgamma 
   exact al_converged_feasible cs p hgamma hmiuMax inner (fun _ _ => rfl) x0 _
     (makeRo1_pos fx0 _ tiny roMin roMax h0 h1) fuel
 
+/-! ### the outer loop of the linear-penalty and the quadratic-penalty solver (`solver_penalty_t::minimize`)
+
+  In all theorems `inner` — the inner solver together with the objective — is an arbitrary function of the outer
+  iteration and the loop state, the constraint list, the parameters, the starting point and `max_outer_iters` are
+  arbitrary; `r.calls` is the ghost log of the calls of the inner solver, in order. -/
+
+/-- the state the solver returns satisfies `PFin` -/
+theorem penSolve_fin (cs : List (C α)) (p : PParams α) (penalty0 eps0 : α) (maxOuters : Nat)
+    (inner : Nat → PState α → PAnswer α) (x0 : List α) :
+    PFin cs p penalty0 eps0 x0 inner (penSolve cs p penalty0 eps0 maxOuters inner x0) :=
+  (penLoop_fin cs p penalty0 eps0 x0 inner maxOuters _ (penInit_run cs p penalty0 eps0 x0 inner)).1
+
+theorem map_absv (l : List α) : l.map absv = l.map (fun v => |v|) :=
+  List.map_congr_left (fun v _ => absv_eq_abs v)
+
+/-- **status `converged` ⇒ the documented stopping test held at the returned point**: the returned point is the answer
+    of the last call of the inner solver, that answer was valid, and it differs from the point the call was started at
+    (the last valid answer before it, `x0` when none) by less than `epsilon * max(1, |start|_inf)` in the sup norm.
+    Nothing else is implied: see `pen_converged_not_feasible`. -/
+theorem pen_converged_stopping_test (cs : List (C α)) (p : PParams α) (penalty0 eps0 : α) (maxOuters : Nat)
+    (inner : Nat → PState α → PAnswer α) (x0 : List α) :
+    let r := penSolve cs p penalty0 eps0 maxOuters inner x0
+    r.status = 1 → ∃ (init : List (PCall α)) (last : PCall α), r.calls = init ++ [last] ∧ last.iterOk = true ∧
+      r.best.x = last.cx ∧ last.start = lastValid x0 init ∧
+      maxL ((vsub r.best.x last.start).map (fun v => |v|)) < p.eps * max 1 (maxL (last.start.map (fun v => |v|))) := by
+  intro r hst
+  have hfin := penSolve_fin cs p penalty0 eps0 maxOuters inner x0
+  obtain ⟨init, last, hcalls, _, hok, hx, _, hcase⟩ := hfin.stopped (by rw [hst]; decide)
+  have hcall := hfin.sched.call init last [] hcalls
+  refine ⟨init, last, hcalls, hok, hx, hcall.start_eq, ?_⟩
+  rcases hcase with ⟨_, hconv⟩ | ⟨h2, _⟩
+  · rw [hcall.xconv_eq] at hconv
+    have := of_decide_eq_true hconv
+    rw [map_absv, map_absv, cmax_eq_max] at this
+    rw [hx]; exact this
+  · rw [hst] at h2; cases h2
+
+/-- the same, coordinate by coordinate -/
+theorem pen_converged_step_small (cs : List (C α)) (p : PParams α) (penalty0 eps0 : α) (maxOuters : Nat)
+    (inner : Nat → PState α → PAnswer α) (x0 : List α) :
+    let r := penSolve cs p penalty0 eps0 maxOuters inner x0
+    r.status = 1 → ∃ (init : List (PCall α)) (last : PCall α), r.calls = init ++ [last] ∧
+      ∀ d ∈ vsub r.best.x last.start, |d| < p.eps * max 1 (maxL (last.start.map (fun v => |v|))) := by
+  intro r hst
+  obtain ⟨init, last, hcalls, _, _, _, hlt⟩ := pen_converged_stopping_test cs p penalty0 eps0 maxOuters inner x0 hst
+  refine ⟨init, last, hcalls, fun d hd => lt_of_le_of_lt ?_ hlt⟩
+  exact le_maxL (List.mem_map.mpr ⟨d, hd, rfl⟩)
+
+/-- The penalty parameter passed to the inner solver at its `k`-th call (`k` = the number of calls before it) is
+    `penalty0 * eta^k`: positive, at least `penalty0`, multiplied by `eta` from one call to the next, and never above
+    `penalty0 * eta^(max_outer_iters - 1)` (`penalty0 > 0`, `eta > 1`: the registered domains). -/
+theorem pen_penalty_schedule (cs : List (C α)) (p : PParams α) (penalty0 eps0 : α) (maxOuters : Nat)
+    (inner : Nat → PState α → PAnswer α) (x0 : List α) (h0 : 0 < penalty0) (heta : 1 < p.eta) :
+    let r := penSolve cs p penalty0 eps0 maxOuters inner x0
+    ∀ (l1 : List (PCall α)) (c : PCall α) (l2 : List (PCall α)), r.calls = l1 ++ c :: l2 →
+      c.penalty = penalty0 * p.eta ^ l1.length ∧ 0 < c.penalty ∧ penalty0 ≤ c.penalty ∧
+      c.penalty ≤ penalty0 * p.eta ^ (maxOuters - 1) ∧
+      (∀ (d : PCall α) (l3 : List (PCall α)), l2 = d :: l3 → d.penalty = c.penalty * p.eta) := by
+  intro r l1 c l2 hcalls
+  have hfin := penSolve_fin cs p penalty0 eps0 maxOuters inner x0
+  have hle := (penLoop_fin cs p penalty0 eps0 x0 inner maxOuters _ (penInit_run cs p penalty0 eps0 x0 inner)).2.1
+  have hcall := hfin.sched.call l1 c l2 hcalls
+  have heta1 : (1 : α) ≤ p.eta := le_of_lt heta
+  have hlen : l1.length ≤ maxOuters - 1 := by
+    have h1 : r.calls.length = r.iters := hfin.calls_len
+    have h2 : r.iters ≤ 0 + maxOuters := hle
+    rw [hcalls] at h1
+    simp only [List.length_append, List.length_cons] at h1
+    omega
+  have hpow : (1 : α) ≤ p.eta ^ l1.length := one_le_pow₀ heta1
+  refine ⟨hcall.penalty_eq, ?_, ?_, ?_, ?_⟩
+  · rw [hcall.penalty_eq]; exact mul_pos h0 (lt_of_lt_of_le one_pos hpow)
+  · rw [hcall.penalty_eq]; nlinarith
+  · rw [hcall.penalty_eq]
+    exact mul_le_mul_of_nonneg_left (pow_le_pow_right₀ heta1 hlen) (le_of_lt h0)
+  · intro d l3 hl2
+    have hd := hfin.sched.call (l1 ++ [c]) d l3 (by rw [hcalls, hl2]; simp)
+    rw [hd.penalty_eq, hcall.penalty_eq, List.length_append, List.length_singleton, pow_succ, mul_assoc]
+
+/-- The constraint values stored in the state the solver returns are those of the function's constraints at the
+    returned point (`bstate.update(cstate.x())` and the constructor both re-evaluate them: never stale), and the two
+    feasibility residuals `kkt_optimality_test1/2` are derived from them — no hypothesis. -/
+theorem pen_state_constraints_recomputed (cs : List (C α)) (p : PParams α) (penalty0 eps0 : α) (maxOuters : Nat)
+    (inner : Nat → PState α → PAnswer α) (x0 : List α) :
+    let r := penSolve cs p penalty0 eps0 maxOuters inner x0
+    r.best.ceq = evalEq cs r.best.x ∧ r.best.cineq = evalIneq cs r.best.x ∧
+    kktTest2 r.best = maxL ((evalEq cs r.best.x).map (fun h => |h|)) ∧
+    kktTest1 r.best = maxL ((evalIneq cs r.best.x).map (fun g => max g 0)) ∧
+    violation r.best = max (kktTest2 r.best) (kktTest1 r.best) := by
+  intro r
+  have hb := (penSolve_fin cs p penalty0 eps0 maxOuters inner x0).best_eq
+  have e1 : r.best.ceq = evalEq cs r.best.x := by rw [hb]; rfl
+  have e2 : r.best.cineq = evalIneq cs r.best.x := by rw [hb]; rfl
+  refine ⟨e1, e2, ?_, ?_, ?_⟩
+  · unfold kktTest2; rw [e1, map_absv]
+  · unfold kktTest1; rw [e2]
+    congr 1
+    exact List.map_congr_left (fun g _ => cmax_eq_max g 0)
+  · unfold violation kktTest1 kktTest2; rw [cmax_eq_max]
+
+/-- The returned point is the last valid answer of the inner solver, `x0` when there was none: it is `x0` or the point
+    `cstate.x()` of an answer `inner k s` with `cstate.valid()`. (Not the best point seen: the loop keeps no record of the
+    earlier answers.) -/
+theorem pen_returned_point (cs : List (C α)) (p : PParams α) (penalty0 eps0 : α) (maxOuters : Nat)
+    (inner : Nat → PState α → PAnswer α) (x0 : List α) :
+    let r := penSolve cs p penalty0 eps0 maxOuters inner x0
+    r.best.x = lastValid x0 r.calls ∧
+    (r.best.x = x0 ∨ ∃ (k : Nat) (s : PState α), k < r.iters ∧ (inner k s).iterOk = true ∧ r.best.x = (inner k s).cx) := by
+  intro r
+  have hfin := penSolve_fin cs p penalty0 eps0 maxOuters inner x0
+  have hx : r.best.x = lastValid x0 r.calls := by rw [hfin.best_eq]; rfl
+  refine ⟨hx, ?_⟩
+  rcases lastValid_mem x0 r.calls with h | ⟨c, hc, hok, he⟩
+  · exact Or.inl (hx.trans h)
+  · right
+    obtain ⟨l1, l2, hl⟩ := List.append_of_mem hc
+    obtain ⟨s, hs1, _, _, _, hans⟩ := (hfin.sched.call l1 c l2 hl).answer
+    refine ⟨l1.length, s, ?_, ?_, ?_⟩
+    · rw [← hfin.calls_len, hl]; simp
+    · rw [hans]; exact hok
+    · rw [hans, hx, he]
+
+/-- The number of outer iterations equals the number of calls of the inner solver and is at most `max_outer_iters`;
+    status `max_iters` means that all of them were used, any other status that at least one call was made. -/
+theorem pen_iteration_count (cs : List (C α)) (p : PParams α) (penalty0 eps0 : α) (maxOuters : Nat)
+    (inner : Nat → PState α → PAnswer α) (x0 : List α) :
+    let r := penSolve cs p penalty0 eps0 maxOuters inner x0
+    r.calls.length = r.iters ∧ r.iters ≤ maxOuters ∧ (r.status = 0 → r.iters = maxOuters) ∧ (r.status ≠ 0 → 1 ≤ r.iters) := by
+  intro r
+  obtain ⟨hfin, h1, h2, h3⟩ := penLoop_fin cs p penalty0 eps0 x0 inner maxOuters _ (penInit_run cs p penalty0 eps0 x0 inner)
+  refine ⟨hfin.calls_len, ?_, ?_, ?_⟩
+  · have : r.iters ≤ 0 + maxOuters := h1
+    omega
+  · intro h
+    have : r.iters = 0 + maxOuters := h2 h
+    omega
+  · intro h
+    have : 0 < r.iters := h3 h
+    omega
+
+/-- Every call of the inner solver is started at the last valid answer before it (`x0` when none), in a loop state that
+    carries the penalty parameter and the precision recorded for the call; its record is the oracle's answer. -/
+theorem pen_start_points (cs : List (C α)) (p : PParams α) (penalty0 eps0 : α) (maxOuters : Nat)
+    (inner : Nat → PState α → PAnswer α) (x0 : List α) :
+    let r := penSolve cs p penalty0 eps0 maxOuters inner x0
+    ∀ (l1 : List (PCall α)) (c : PCall α) (l2 : List (PCall α)), r.calls = l1 ++ c :: l2 →
+      c.start = lastValid x0 l1 ∧ c.xconv = xConverged c.start c.cx p.eps ∧
+      ∃ s : PState α, s.iters = l1.length ∧ s.penalty = c.penalty ∧ s.innerEps = c.innerEps ∧ s.best.x = c.start ∧
+        inner l1.length s = ⟨c.cx, c.iterOk, c.bvalid⟩ := by
+  intro r l1 c l2 hcalls
+  have hcall := (penSolve_fin cs p penalty0 eps0 maxOuters inner x0).sched.call l1 c l2 hcalls
+  exact ⟨hcall.start_eq, hcall.xconv_eq, hcall.answer⟩
+
+/-- The status is `max_iters`, `converged` or `failed`. Only the last call can stop the loop: every call before it
+    either failed (`!cstate.valid()`) or was valid, did not meet the stopping test and left a valid `bstate`.
+    `failed` means: the last answer was valid, did not meet the stopping test, and `bstate` became invalid when updated
+    to it. A failing inner solver alone never yields `failed`: the loop increases the penalty and tries again. -/
+theorem pen_status_meaning (cs : List (C α)) (p : PParams α) (penalty0 eps0 : α) (maxOuters : Nat)
+    (inner : Nat → PState α → PAnswer α) (x0 : List α) :
+    let r := penSolve cs p penalty0 eps0 maxOuters inner x0
+    (r.status = 0 ∨ r.status = 1 ∨ r.status = 2) ∧
+    (r.status = 0 → ∀ c ∈ r.calls, NonStop c) ∧
+    (r.status ≠ 0 → ∃ (init : List (PCall α)) (last : PCall α), r.calls = init ++ [last] ∧ (∀ c ∈ init, NonStop c) ∧
+      last.iterOk = true ∧ (r.status = 1 ↔ last.xconv = true) ∧
+      (r.status = 2 ↔ (last.xconv = false ∧ last.bvalid = false))) := by
+  intro r
+  have hfin := penSolve_fin cs p penalty0 eps0 maxOuters inner x0
+  refine ⟨?_, fun h => (hfin.running h).1, fun h => ?_⟩
+  · by_cases h : r.status = 0
+    · exact Or.inl h
+    · obtain ⟨_, _, _, _, _, _, _, hcase⟩ := hfin.stopped h
+      rcases hcase with ⟨h1, _⟩ | ⟨h2, _⟩
+      · exact Or.inr (Or.inl h1)
+      · exact Or.inr (Or.inr h2)
+  · obtain ⟨init, last, hcalls, hns, hok, _, _, hcase⟩ := hfin.stopped h
+    refine ⟨init, last, hcalls, hns, hok, ?_, ?_⟩
+    · rcases hcase with ⟨h1, hc⟩ | ⟨h2, hc, _⟩
+      · exact ⟨fun _ => hc, fun _ => h1⟩
+      · constructor
+        · intro h1; rw [h1] at h2; cases h2
+        · intro h1; rw [h1] at hc; cases hc
+    · rcases hcase with ⟨h1, hc⟩ | ⟨h2, hc, hb⟩
+      · constructor
+        · intro h2; rw [h2] at h1; cases h1
+        · intro h2; rw [h2.1] at hc; cases hc
+      · exact ⟨fun _ => ⟨hc, hb⟩, fun _ => h2⟩
+
+/-- The precision `solver::epsilon` of the inner solver at a call is `epsilon0 * epsilonK^m`, `m` = the number of valid
+    answers before it (`more_precise` after every iteration that goes on with a valid answer): positive and at most
+    `epsilon0` for `0 < epsilonK ≤ 1`. -/
+theorem pen_inner_precision (cs : List (C α)) (p : PParams α) (penalty0 eps0 : α) (maxOuters : Nat)
+    (inner : Nat → PState α → PAnswer α) (x0 : List α) (h0 : 0 < eps0) (hK0 : 0 < p.epsK) (hK1 : p.epsK ≤ 1) :
+    let r := penSolve cs p penalty0 eps0 maxOuters inner x0
+    ∀ (l1 : List (PCall α)) (c : PCall α) (l2 : List (PCall α)), r.calls = l1 ++ c :: l2 →
+      c.innerEps = eps0 * p.epsK ^ (l1.countP (fun d => d.iterOk)) ∧ 0 < c.innerEps ∧ c.innerEps ≤ eps0 := by
+  intro r l1 c l2 hcalls
+  have hcall := (penSolve_fin cs p penalty0 eps0 maxOuters inner x0).sched.call l1 c l2 hcalls
+  refine ⟨hcall.innerEps_eq, ?_, ?_⟩
+  · rw [hcall.innerEps_eq]; exact mul_pos h0 (pow_pos hK0 _)
+  · rw [hcall.innerEps_eq]
+    have : p.epsK ^ (l1.countP (fun d => d.iterOk)) ≤ 1 := pow_le_one₀ (le_of_lt hK0) hK1
+    nlinarith
+
+/-- `solver_linear_penalty_t`: at its `k`-th call the inner solver is given the linear penalty function of the objective
+    with the penalty parameter `penalty0 * eta^k` and is started at the last valid answer. -/
+theorem linear_penalty_solver_inner_objective (f : List α → α × List α) (cs : List (C α)) (p : PParams α)
+    (penalty0 eps0 : α) (maxOuters : Nat) (solver : InnerSolver α) (x0 : List α) :
+    let r := linearPenaltySolve f cs p penalty0 eps0 maxOuters solver x0
+    ∀ (l1 : List (PCall α)) (c : PCall α) (l2 : List (PCall α)), r.calls = l1 ++ c :: l2 →
+      (⟨c.cx, c.iterOk, c.bvalid⟩ : PAnswer α)
+        = solver l1.length (linearPenaltyAt (penalty0 * p.eta ^ l1.length) f cs) c.innerEps (lastValid x0 l1) := by
+  intro r l1 c l2 hcalls
+  have hcall := (penSolve_fin cs p penalty0 eps0 maxOuters
+    (fun k s => solver k (linearPenaltyAt s.penalty f cs) s.innerEps s.best.x) x0).sched.call l1 c l2 hcalls
+  obtain ⟨s, _, h2, h3, h4, h5⟩ := hcall.answer
+  rw [← h5]
+  simp only [h2, h3, h4, hcall.penalty_eq, hcall.start_eq]
+
+/-- `solver_quadratic_penalty_t`: the same with the quadratic penalty function. -/
+theorem quadratic_penalty_solver_inner_objective (f : List α → α × List α) (cs : List (C α)) (p : PParams α)
+    (penalty0 eps0 : α) (maxOuters : Nat) (solver : InnerSolver α) (x0 : List α) :
+    let r := quadraticPenaltySolve f cs p penalty0 eps0 maxOuters solver x0
+    ∀ (l1 : List (PCall α)) (c : PCall α) (l2 : List (PCall α)), r.calls = l1 ++ c :: l2 →
+      (⟨c.cx, c.iterOk, c.bvalid⟩ : PAnswer α)
+        = solver l1.length (quadraticPenaltyAt (penalty0 * p.eta ^ l1.length) f cs) c.innerEps (lastValid x0 l1) := by
+  intro r l1 c l2 hcalls
+  have hcall := (penSolve_fin cs p penalty0 eps0 maxOuters
+    (fun k s => solver k (quadraticPenaltyAt s.penalty f cs) s.innerEps s.best.x) x0).sched.call l1 c l2 hcalls
+  obtain ⟨s, _, h2, h3, h4, h5⟩ := hcall.answer
+  rw [← h5]
+  simp only [h2, h3, h4, hcall.penalty_eq, hcall.start_eq]
+
+/-! ### the augmented-Lagrangian loop: iteration count and returned point -/
+
+/-- the augmented-Lagrangian loop makes at most `fuel` (= `max_outer_iters`) outer iterations, one inner solve each -/
+theorem al_iteration_count (cs : List (C α)) (p : Params α) (inner : Nat → ALState α → Answer α) :
+    ∀ (fuel : Nat) (s : ALState α), (alLoop cs p inner fuel s).iters ≤ s.iters + fuel := by
+  intro fuel
+  induction fuel with
+  | zero => intro s; exact le_refl _
+  | succ fuel ih =>
+    intro s
+    have hstep : (alStep cs p s (inner s.iters s)).1.iters = s.iters + 1 := by
+      unfold alStep; simp only; split <;> rfl
+    simp only [alLoop]
+    split
+    · omega
+    · have := ih (alStep cs p s (inner s.iters s)).1
+      omega
+
+/-- The point the augmented-Lagrangian solver returns is `x0` or the point of a valid answer of the inner solver: any
+    property of `x0` and of all valid answers holds of it. -/
+theorem al_returned_point (cs : List (C α)) (p : Params α) (inner : Nat → ALState α → Answer α) (x0 : List α) (ro1 : α)
+    (fuel : Nat) (P : List α → Prop) (h0 : P x0) (hans : ∀ k s, (inner k s).iterOk = true → P (inner k s).cstate.x) :
+    P (alLoop cs p inner fuel (alInit cs x0 ro1)).best.x := by
+  have key : ∀ (fuel : Nat) (s : ALState α), P s.best.x → P (alLoop cs p inner fuel s).best.x := by
+    intro fuel
+    induction fuel with
+    | zero => intro s hs; exact hs
+    | succ fuel ih =>
+      intro s hs
+      have hstep : P (alStep cs p s (inner s.iters s)).1.best.x := by
+        have hb : P (if alImproved s (inner s.iters s) then mkState cs (inner s.iters s).cstate.x else s.best).x := by
+          split
+          · have hi : alImproved s (inner s.iters s) = true := ‹_›
+            simp only [alImproved, Bool.and_eq_true] at hi
+            exact hans _ _ hi.1
+          · exact hs
+        unfold alStep; simp only; split <;> exact hb
+      simp only [alLoop]
+      split
+      · exact hstep
+      · exact ih _ hstep
+  exact key fuel _ h0
+
+/-- The feasibility residuals `kkt_optimality_test1/2` of the state the augmented-Lagrangian solver returns are derived from
+    the constraint values of the problem recomputed at the returned point — no hypothesis, every inner-solver behaviour. -/
+theorem al_state_residuals (cs : List (C α)) (p : Params α) (inner : Nat → ALState α → Answer α) (x0 : List α) (ro1 : α)
+    (fuel : Nat) :
+    let r := alLoop cs p inner fuel (alInit cs x0 ro1)
+    kktTest2 r.best = maxL ((evalEq cs r.best.x).map (fun h => |h|)) ∧
+    kktTest1 r.best = maxL ((evalIneq cs r.best.x).map (fun g => max g 0)) ∧
+    violation r.best = max (kktTest2 r.best) (kktTest1 r.best) := by
+  intro r
+  obtain ⟨e1, e2⟩ := al_state_constraints_recomputed cs p inner x0 ro1 fuel
+  refine ⟨?_, ?_, ?_⟩
+  · unfold kktTest2; rw [e1, map_absv]
+  · unfold kktTest1; rw [e2]
+    congr 1
+    exact List.map_congr_left (fun g _ => cmax_eq_max g 0)
+  · unfold violation kktTest1 kktTest2; rw [cmax_eq_max]
+
+/-- The penalty parameter `ro` of the augmented-Lagrangian loop follows the documented schedule: in every state the loop
+    reaches (any number of outer iterations) it is `ro1 * gamma^j` for some `j` not above the number of iterations made —
+    positive, at least the starting value `ro1`, at most `ro1 * gamma^max_outer_iters` (`ro1 > 0`, `gamma > 1`). -/
+theorem al_penalty_schedule (cs : List (C α)) (p : Params α) (hgamma : 1 < p.gamma)
+    (inner : Nat → ALState α → Answer α) (x0 : List α) (ro1 : α) (hro : 0 < ro1) (fuel : Nat) :
+    let r := alLoop cs p inner fuel (alInit cs x0 ro1)
+    (∃ j, j ≤ r.iters ∧ r.ro = ro1 * p.gamma ^ j) ∧ 0 < r.ro ∧ ro1 ≤ r.ro ∧ r.ro ≤ ro1 * p.gamma ^ fuel := by
+  have hg1 : (1 : α) ≤ p.gamma := le_of_lt hgamma
+  have hstep : ∀ (s : ALState α) (a : Answer α), (∃ j, j ≤ s.iters ∧ s.ro = ro1 * p.gamma ^ j) →
+      ∃ j, j ≤ (alStep cs p s a).1.iters ∧ (alStep cs p s a).1.ro = ro1 * p.gamma ^ j := by
+    intro s a ⟨j, hj, hro⟩
+    unfold alStep
+    simp only
+    split
+    · exact ⟨j, by simp only; omega, hro⟩
+    · simp only
+      split
+      · exact ⟨j + 1, by omega, by rw [hro, pow_succ]; ring⟩
+      · exact ⟨j, by omega, hro⟩
+  have key : ∀ (fuel : Nat) (s : ALState α), (∃ j, j ≤ s.iters ∧ s.ro = ro1 * p.gamma ^ j) →
+      ∃ j, j ≤ (alLoop cs p inner fuel s).iters ∧ (alLoop cs p inner fuel s).ro = ro1 * p.gamma ^ j := by
+    intro fuel
+    induction fuel with
+    | zero => intro s h; exact h
+    | succ fuel ih =>
+      intro s h
+      have := hstep s (inner s.iters s) h
+      simp only [alLoop]
+      split
+      · exact this
+      · exact ih _ this
+  intro r
+  obtain ⟨j, hj, hr⟩ := key fuel (alInit cs x0 ro1) ⟨0, Nat.zero_le _, by simp [alInit]⟩
+  have hit : r.iters ≤ 0 + fuel := al_iteration_count cs p inner fuel (alInit cs x0 ro1)
+  have hj : j ≤ r.iters := hj
+  have hr : r.ro = ro1 * p.gamma ^ j := hr
+  have hpow : (1 : α) ≤ p.gamma ^ j := one_le_pow₀ hg1
+  refine ⟨⟨j, hj, hr⟩, ?_, ?_, ?_⟩
+  · rw [hr]; exact mul_pos hro (lt_of_lt_of_le one_pos hpow)
+  · rw [hr]; nlinarith
+  · rw [hr]
+    exact mul_le_mul_of_nonneg_left (pow_le_pow_right₀ hg1 (by omega)) (le_of_lt hro)
+
+/-! ### `solver_state_t`: the gradient of the Lagrangian, the KKT residuals, the stored multipliers -/
+
+/-- `update_constraints` leaves in `m_lgx` the gradient of the Lagrangian `∇f + Σ_j meq_j ∇h_j + Σ_i mineq_i ∇g_i`,
+    component by component — for any constraint list, under the sizes the constructor establishes. -/
+theorem lagrangian_grad_eq_def (gx : List α) (es : List (Eval α)) (meq mineq : List α)
+    (hes : ∀ e ∈ es, e.gc.length = gx.length) (hl : meq.length = (eqs es).length)
+    (hm : mineq.length = (ineqs es).length) :
+    ∃ r, lagrangianGrad gx es meq mineq = some r ∧ r.length = gx.length ∧
+      ∀ i, r.getD i 0 = gx.getD i 0 + (List.zipWith (fun e m => m * e.gc.getD i 0) (eqs es) meq).sum
+        + (List.zipWith (fun e m => m * e.gc.getD i 0) (ineqs es) mineq).sum := by
+  obtain ⟨ps, h1, h2, h3⟩ := assignMult_spec gx.length es meq mineq hl hm hes
+  obtain ⟨h4, h5⟩ := foldl_axpy_spec gx.length ps gx rfl h2
+  refine ⟨_, by simp [lagrangianGrad, h1], h4, fun i => ?_⟩
+  rw [h5 i, h3 i, add_assoc]
+
+/-- `kkt_optimality_test3` vanishes exactly when every stored multiplier of an inequality is non-negative -/
+theorem kkt3_eq_zero_iff (mineq : List α) : kkt3 mineq = 0 ↔ ∀ m ∈ mineq, 0 ≤ m := by
+  unfold kkt3
+  rw [maxL_eq_zero_iff (by
+    intro x hx
+    obtain ⟨m, _, rfl⟩ := List.mem_map.mp hx
+    rw [cmax_eq_max]; exact le_max_right _ _)]
+  constructor
+  · intro h m hm
+    have := h _ (List.mem_map.mpr ⟨m, hm, rfl⟩)
+    rw [cmax_eq_max] at this
+    have h2 : -m ≤ max (-m) 0 := le_max_left _ _
+    linarith
+  · intro h x hx
+    obtain ⟨m, hm, rfl⟩ := List.mem_map.mp hx
+    rw [cmax_eq_max]
+    exact max_eq_right (by have := h m hm; linarith)
+
+/-- `kkt_optimality_test() ≤ ε` makes the state an ε-KKT point of the stored quantities: every inequality at most `ε`,
+    every equality within `ε`, every inequality multiplier at least `-ε`, complementarity `|mineq_i g_i| ≤ ε`, and every
+    component of the Lagrangian gradient within `ε`. -/
+theorem kktAll_le_imp_eps_kkt (ceq cineq mineq lgx : List α) (ε : α) (h : kktAll ceq cineq mineq lgx ≤ ε) :
+    (∀ g ∈ cineq, g ≤ ε) ∧ (∀ v ∈ ceq, |v| ≤ ε) ∧ (∀ m ∈ mineq, -ε ≤ m) ∧
+    (∀ (i : Nat) (h1 : i < mineq.length) (h2 : i < cineq.length), |mineq[i] * cineq[i]| ≤ ε) ∧
+    (∀ l ∈ lgx, |l| ≤ ε) ∧ 0 ≤ ε := by
+  unfold kktAll at h
+  simp only [cmax_eq_max, max_le_iff] at h
+  obtain ⟨⟨⟨⟨h1, h2⟩, h3⟩, h4⟩, h5⟩ := h
+  refine ⟨?_, ?_, ?_, ?_, ?_, le_trans (maxL_nonneg _) h1⟩
+  · intro g hg
+    have : cmax g 0 ≤ kkt1 cineq := le_maxL (List.mem_map.mpr ⟨g, hg, rfl⟩)
+    rw [cmax_eq_max] at this
+    exact le_trans (le_max_left _ _) (le_trans this h1)
+  · intro v hv
+    have : absv v ≤ kkt2 ceq := le_maxL (List.mem_map.mpr ⟨v, hv, rfl⟩)
+    rw [absv_eq_abs] at this
+    exact le_trans this h2
+  · intro m hm
+    have : cmax (-m) 0 ≤ kkt3 mineq := le_maxL (List.mem_map.mpr ⟨m, hm, rfl⟩)
+    rw [cmax_eq_max] at this
+    have h6 : -m ≤ ε := le_trans (le_max_left _ _) (le_trans this h3)
+    linarith
+  · intro i i1 i2
+    have hmem : absv (mineq[i] * cineq[i]) ∈ List.zipWith (fun m g => absv (m * g)) mineq cineq := by
+      have hi : i < (List.zipWith (fun m g => absv (m * g)) mineq cineq).length := by simp [i1, i2]
+      have := List.getElem_mem hi
+      simpa [List.getElem_zipWith] using this
+    have : absv (mineq[i] * cineq[i]) ≤ kkt4 mineq cineq := le_maxL hmem
+    rw [absv_eq_abs] at this
+    exact le_trans this h4
+  · intro l hl
+    have : absv l ≤ kkt5 lgx := le_maxL (List.mem_map.mpr ⟨l, hl, rfl⟩)
+    rw [absv_eq_abs] at this
+    exact le_trans this h5
+
+/-- The state the augmented-Lagrangian solver returns stores one multiplier per constraint, those of the inequalities
+    non-negative: its `kkt_optimality_test3` is exactly zero — for every inner-solver behaviour (`miu_max ≥ 0`). -/
+theorem al_returned_multipliers (cs : List (C α)) (p : Params α) (hmiuMax : 0 ≤ p.miuMax)
+    (inner : Nat → ALState α → Answer α) (x0 : List α) (ro1 : α) (fuel : Nat) :
+    let r := alLoop cs p inner fuel (alInit cs x0 ro1)
+    (∀ m ∈ r.bmineq, 0 ≤ m) ∧ kkt3 r.bmineq = 0 ∧ r.bmeq.length = countEq cs ∧ r.bmineq.length = countIneq cs := by
+  intro r
+  have h := alLoop_multInv cs p hmiuMax inner fuel _ (alInit_multInv cs x0 ro1)
+  exact ⟨h.bmineq_nonneg, (kkt3_eq_zero_iff _).mpr h.bmineq_nonneg, h.bmeq_len, h.bmineq_len⟩
+
+/-- with zero multipliers (every state the penalty solvers return: they never pass multipliers to `update`) the Lagrangian
+    gradient is the objective's gradient and `test3 = test4 = 0` -/
+theorem zero_multipliers_state (gx : List α) (es : List (Eval α)) (cineq : List α)
+    (hes : ∀ e ∈ es, e.gc.length = gx.length) :
+    (∃ r, lagrangianGrad gx es (zeros (eqs es).length) (zeros (ineqs es).length) = some r ∧ r.length = gx.length ∧
+      ∀ i, r.getD i 0 = gx.getD i 0) ∧
+    kkt3 (zeros (ineqs es).length : List α) = 0 ∧ kkt4 (zeros (ineqs es).length) cineq = 0 := by
+  refine ⟨?_, ?_, ?_⟩
+  · obtain ⟨r, h1, h2, h3⟩ := lagrangian_grad_eq_def gx es (zeros (eqs es).length) (zeros (ineqs es).length) hes
+      (by simp [zeros]) (by simp [zeros])
+    refine ⟨r, h1, h2, fun i => ?_⟩
+    rw [h3 i, zipWith_sum_zero, zipWith_sum_zero]
+    · ring
+    · intro e _ m hm
+      rw [List.eq_of_mem_replicate hm]; ring
+    · intro e _ m hm
+      rw [List.eq_of_mem_replicate hm]; ring
+  · rw [kkt3_eq_zero_iff]
+    intro m hm
+    rw [List.eq_of_mem_replicate hm]
+  · unfold kkt4
+    apply le_antisymm _ (maxL_nonneg _)
+    apply maxL_le (le_refl _)
+    intro x hx
+    obtain ⟨i, hi, rfl⟩ := List.mem_iff_getElem.mp hx
+    simp only [List.getElem_zipWith, zeros, List.getElem_replicate, zero_mul, absv_eq_abs, abs_zero, le_refl]
+
 /-! ### non-vacuity: concrete instances over `ℚ` -/
 
 section Examples
@@ -499,6 +943,119 @@ example : ¬ (∀ g ∈ evalIneq exCs1 [3], max 0 g ≤ exP.eps) := by decide +k
 example : (alLoop exCs1 exP exInner 2 (alInit exCs1 [3] 1)).status = 0 ∧
     (alLoop exCs1 exP exInnerBad 10 (alInit exCs1 [3] 1)).status = 2 := by decide +kernel
 
+/-! #### the penalty solvers -/
+
+private def exPP : PParams ℚ := ⟨1 / 1000, 5, 1 / 2⟩
+
+/-- an inner solver that returns `3/2`, then `1`, then `1` (always valid) -/
+private def exInnerP : Nat → PState ℚ → PAnswer ℚ := fun k _ => ⟨[if k = 0 then 3 / 2 else 1], true, true⟩
+
+/-- an inner solver that fails twice and then returns `7` -/
+private def exInnerPF : Nat → PState ℚ → PAnswer ℚ := fun k _ => ⟨[7], decide (2 ≤ k), true⟩
+
+-- the hypotheses of `pen_penalty_schedule` and `pen_inner_precision` hold for the registered defaults
+example : (0 : ℚ) < 10 ∧ 1 < exPP.eta ∧ (0 : ℚ) < 1 / 100 ∧ 0 < exPP.epsK ∧ exPP.epsK ≤ 1 := by decide +kernel
+-- a run that converges at the third outer iteration: penalties 10, 50, 250; the starting points chain through the answers;
+-- the stored constraint value is that of `g(x) = x - 1` at the returned point
+example : (penSolve exCs1 exPP 10 (1 / 100) 20 exInnerP [3]).status = 1 ∧
+    (penSolve exCs1 exPP 10 (1 / 100) 20 exInnerP [3]).iters = 3 ∧
+    (penSolve exCs1 exPP 10 (1 / 100) 20 exInnerP [3]).best.x = [1] ∧
+    (penSolve exCs1 exPP 10 (1 / 100) 20 exInnerP [3]).best.cineq = [0] ∧
+    (penSolve exCs1 exPP 10 (1 / 100) 20 exInnerP [3]).calls.map (·.penalty) = [10, 50, 250] ∧
+    (penSolve exCs1 exPP 10 (1 / 100) 20 exInnerP [3]).calls.map (·.start) = [[3], [3 / 2], [1]] ∧
+    (penSolve exCs1 exPP 10 (1 / 100) 20 exInnerP [3]).calls.map (·.innerEps) = [1 / 100, 1 / 200, 1 / 400] := by
+  decide +kernel
+-- a failing inner solver: the penalty grows, `bstate` and the inner precision stay; the returned point is the last valid answer
+example : (penSolve exCs1 exPP 10 (1 / 100) 20 exInnerPF [3]).status = 1 ∧
+    (penSolve exCs1 exPP 10 (1 / 100) 20 exInnerPF [3]).iters = 4 ∧
+    (penSolve exCs1 exPP 10 (1 / 100) 20 exInnerPF [3]).best.x = [7] ∧
+    (penSolve exCs1 exPP 10 (1 / 100) 20 exInnerPF [3]).best.cineq = [6] ∧
+    (penSolve exCs1 exPP 10 (1 / 100) 20 exInnerPF [3]).calls.map (·.start) = [[3], [3], [3], [7]] ∧
+    (penSolve exCs1 exPP 10 (1 / 100) 20 exInnerPF [3]).calls.map (·.penalty) = [10, 50, 250, 1250] ∧
+    (penSolve exCs1 exPP 10 (1 / 100) 20 exInnerPF [3]).calls.map (·.innerEps) = [1 / 100, 1 / 100, 1 / 100, 1 / 200] := by
+  decide +kernel
+-- an inner solver that always fails: all outer iterations are used, the status stays `max_iters`, `x0` is returned;
+-- a valid answer that makes `bstate` invalid: `failed`; two outer iterations only: `max_iters`
+example : (penSolve exCs1 exPP 10 (1 / 100) 20 (fun _ _ => ⟨[7], false, true⟩) [3]).status = 0 ∧
+    (penSolve exCs1 exPP 10 (1 / 100) 20 (fun _ _ => ⟨[7], false, true⟩) [3]).iters = 20 ∧
+    (penSolve exCs1 exPP 10 (1 / 100) 20 (fun _ _ => ⟨[7], false, true⟩) [3]).best.x = [3] ∧
+    (penSolve exCs1 exPP 10 (1 / 100) 20 (fun _ _ => ⟨[7], true, false⟩) [3]).status = 2 ∧
+    (penSolve exCs1 exPP 10 (1 / 100) 2 exInnerP [3]).status = 0 ∧
+    (penSolve exCs1 exPP 10 (1 / 100) 2 exInnerP [3]).iters = 2 := by
+  decide +kernel
+-- `al_iteration_count`, `al_returned_point` on the run of the augmented-Lagrangian example
+example : (alLoop exCs1 exP exInner 10 (alInit exCs1 [3] 1)).iters ≤ 0 + 10 ∧
+    (alLoop exCs1 exP exInner 10 (alInit exCs1 [3] 1)).best.x = (exInner 1 (alInit exCs1 [3] 1)).cstate.x := by
+  decide +kernel
+
+-- the state the augmented-Lagrangian loop keeps is NOT the best one seen: `bstate` is replaced whenever the criterion improves on
+-- that of the PREVIOUS iteration (`old_criterion = criterion` every iteration). Criteria 1/10, 1/2, 3/10 (from 2 at `x0`):
+-- the loop returns the third answer (`|h| = 3/10`) although the first one had `|h| = 1/10`
+example : (alLoop [.constant 1 0] exP (fun k _ => ⟨mkState [.constant 1 0] [if k = 0 then 11 / 10 else if k = 1 then 3 / 2 else 13 / 10],
+      true, true⟩) 3 (alInit [.constant 1 0] [3] 1)).best.x = [13 / 10] ∧
+    (alLoop [.constant 1 0] exP (fun k _ => ⟨mkState [.constant 1 0] [if k = 0 then 11 / 10 else if k = 1 then 3 / 2 else 13 / 10],
+      true, true⟩) 3 (alInit [.constant 1 0] [3] 1)).status = 0 := by
+  decide +kernel
+
+-- `solver_state_t`: the Lagrangian gradient of `exCs` (h = x₀ - 1, g = x₁) at multipliers 3 and 2: ∇f + 3 ∇h + 2 ∇g; the residuals
+example : lagrangianGrad [1, 1] (exCs.map (evalC [3, 2])) [3] [2] = some ([4, 3] : List ℚ) ∧
+    lagrangianGrad [1, 1] (exCs.map (evalC [3, 2])) [] [2] = (none : Option (List ℚ)) ∧
+    kkt3 ([2, -1 / 2] : List ℚ) = 1 / 2 ∧ kkt3 ([2, 0] : List ℚ) = 0 ∧ kkt4 ([2, 3] : List ℚ) [-1, 1 / 2] = 2 ∧
+    kktAll ([1 / 10] : List ℚ) [-1, 1 / 5] [2, 0] [1 / 4, -1 / 3] = 2 := by decide +kernel
+-- the hypotheses of `lagrangian_grad_eq_def` hold for this instance, and `kktAll ≤ ε` is reachable
+example : (∀ e ∈ exCs.map (evalC [3, 2]), e.gc.length = ([1, 1] : List ℚ).length) ∧
+    ([3] : List ℚ).length = (eqs (exCs.map (evalC [3, 2]))).length ∧
+    kktAll ([1 / 10] : List ℚ) [-1, 1 / 5] [0, 0] [1 / 4, -1 / 3] ≤ 1 / 3 := by decide +kernel
+-- the run of the augmented-Lagrangian example stores the multiplier estimate of the iteration that produced the returned point
+example : (alLoop exCs1 exP exInner 10 (alInit exCs1 [3] 1)).bmineq = [1 / 2] ∧
+    (alLoop exCs1 exP exInner 10 (alInit exCs1 [3] 1)).bmeq = [] := by decide +kernel
+
+/-- objective `f(x) = x₀²` -/
+private def exF2 : List ℚ → ℚ × List ℚ := fun x => (x.getD 0 0 * x.getD 0 0, [2 * x.getD 0 0])
+
+/-- `g(x) = 1 - x₀ ≤ 0` -/
+private def exCs2 : List (C ℚ) := [.minimum 1 0]
+
+/-- `x = 1/2` minimises `x² + max(0, 1 - x)²` over all points -/
+private theorem exQuadMin (ys : List ℚ) :
+    (quadraticPenaltyAt 1 exF2 exCs2 [1 / 2]).1 ≤ (quadraticPenaltyAt 1 exF2 exCs2 ys).1 := by
+  have h1 : (quadraticPenaltyAt 1 exF2 exCs2 [1 / 2]).1 = 1 / 2 := by decide +kernel
+  rw [h1]
+  simp only [quadraticPenaltyAt, quadraticPenalty, exCs2, List.map, evalC, C.vgrad, C.isEq, penaltyVgrad, Bool.false_or,
+    exF2, quadraticOp]
+  split
+  · rename_i h
+    simp only [decide_eq_true_eq] at h
+    nlinarith [sq_nonneg (2 * ys.getD 0 0 - 1)]
+  · rename_i h
+    simp only [decide_eq_true_eq, not_lt] at h
+    nlinarith
+
 end Examples
+
+/-- **`converged` does not imply feasibility for the penalty solvers.** A run of the quadratic-penalty solver inside the
+    registered parameter domains, with an *exact* inner solver (its answer is a global minimiser of the penalty function it
+    was given), on `min x²  s.t.  x ≥ 1`: started at `x0 = 1/2` — the minimiser of `x² + 1·max(0, 1 - x)²` — the first inner
+    solve returns `x0`, the iterate has not moved, the status is `converged` after one outer iteration, and the returned
+    point violates the constraint by `1/2`, five hundred times `epsilon`. -/
+theorem pen_converged_not_feasible :
+    ∃ (f : List ℚ → ℚ × List ℚ) (cs : List (C ℚ)) (p : PParams ℚ) (penalty0 eps0 : ℚ) (maxOuters : Nat)
+      (solver : InnerSolver ℚ) (x0 : List ℚ),
+      0 < p.eps ∧ p.eps ≤ 1 / 10 ∧ 1 < p.eta ∧ p.eta ≤ 1000 ∧ 0 < p.epsK ∧ p.epsK ≤ 1 ∧ 0 < penalty0 ∧ penalty0 ≤ 1000 ∧
+      0 < eps0 ∧ eps0 ≤ 1 / 100 ∧ 10 ≤ maxOuters ∧ maxOuters ≤ 100 ∧
+      (quadraticPenaltySolve f cs p penalty0 eps0 maxOuters solver x0).status = 1 ∧
+      (quadraticPenaltySolve f cs p penalty0 eps0 maxOuters solver x0).iters = 1 ∧
+      500 * p.eps ≤ violation (quadraticPenaltySolve f cs p penalty0 eps0 maxOuters solver x0).best ∧
+      (∀ ys : List ℚ, (quadraticPenaltyAt penalty0 f cs (quadraticPenaltySolve f cs p penalty0 eps0 maxOuters solver x0).best.x).1
+        ≤ (quadraticPenaltyAt penalty0 f cs ys).1) := by
+  refine ⟨exF2, exCs2, ⟨1 / 1000, 5, 1 / 2⟩, 1, 1 / 1000000, 20, fun _ _ _ x => ⟨x, true, true⟩, [1 / 2],
+    by decide +kernel, by decide +kernel, by decide +kernel, by decide +kernel, by decide +kernel, by decide +kernel,
+    by decide +kernel, by decide +kernel, by decide +kernel, by decide +kernel, by decide, by decide,
+    by decide +kernel, by decide +kernel, by decide +kernel, ?_⟩
+  have hx : (quadraticPenaltySolve exF2 exCs2 ⟨1 / 1000, 5, 1 / 2⟩ 1 (1 / 1000000) 20 (fun _ _ _ x => ⟨x, true, true⟩)
+      [1 / 2]).best.x = [1 / 2] := by decide +kernel
+  rw [hx]
+  exact exQuadMin
+
 
 end NanoVerif.Penalty
